@@ -9,6 +9,7 @@ import (
 	"reflect"
 	"strconv"
 	"strings"
+	"time"
 
 	"github.com/mmcloughlin/addchain/acc"
 	"github.com/mmcloughlin/addchain/acc/ast"
@@ -261,6 +262,8 @@ func Run(c string) string {
 			return "err other"
 		}
 		return "ok " + EncScript(t) + " " + lib.Bytes(b) + " " + showParse(string(b))
+	case f[0] == "deepparse" && len(f) == 2:
+		return deepParse(lib.Atoi(f[1]))
 	case f[0] == "expr" && len(f) == 2:
 		b, err := printer.Bytes(DecExpr(f[1]))
 		if err != nil {
@@ -269,6 +272,40 @@ func Run(c string) string {
 		return "ok " + lib.Bytes(b)
 	}
 	return "badcase"
+}
+
+// DeepSource is "return 1 + 1" with the expression wrapped in n pairs of parentheses.
+func DeepSource(n int) string {
+	return "return " + strings.Repeat("(", n) + "1 + 1" + strings.Repeat(")", n)
+}
+
+// deepParse parses DeepSource(n) with a deadline: the parser must be (and, with
+// memoisation, is) linear in the nesting depth. Without memoisation the PEG
+// re-parses every parenthesised expression in each alternative of ShiftExpr,
+// i.e. about 2.3^n steps.
+func deepParse(n int) string {
+	type res struct {
+		c   *ast.Chain
+		err error
+	}
+	ch := make(chan res, 1)
+	go func() {
+		c, err := parse.String(DeepSource(n))
+		ch <- res{c, err}
+	}()
+	select {
+	case r := <-ch:
+		if r.err != nil {
+			return "err parse"
+		}
+		want := &ast.Chain{Statements: []ast.Statement{{Expr: ast.Add{X: ast.Operand(0), Y: ast.Operand(0)}}}}
+		if !reflect.DeepEqual(r.c, want) {
+			return "err tree"
+		}
+		return "ok"
+	case <-time.After(2 * time.Second):
+		return "err slow"
+	}
 }
 
 // ---------------------------------------------------------------- C03 oracle: in-order semantics
@@ -331,7 +368,7 @@ func Interp(c *ast.Chain) (vals []*big.Int, ops [][2]int, reject string) {
 			if !exists(x) {
 				return 0, "future"
 			}
-			if e.S > 1<<20 {
+			if e.S > 4096 { // same bound as hugeShift: never materialise more
 				return 0, "toolarge"
 			}
 			for k := uint(0); k < e.S; k++ {
@@ -403,6 +440,10 @@ func OracleC03(c, res string) string {
 		return "panic: " + res
 	}
 	switch f[0] {
+	case "deepparse":
+		if res != "ok" {
+			return "parsing " + f[1] + " nested parentheses around 1 + 1: " + res + " (must succeed within 2 s)"
+		}
 	case "parsex":
 		if res != "ok "+f[2] {
 			return "text does not parse to the tree the grammar assigns: want " + f[2]
